@@ -318,7 +318,7 @@ def run_batch(scratch, bn, mem_gb, logdir, k):
 
 def run_many(scratch, hs, tier, jobs, logdir):
     os.makedirs(logdir, exist_ok=True)
-    default_to = 150 if tier == "quick" else 1800
+    default_to = 600 if tier == "quick" else 1800   # generous: a loaded machine must not turn a proof into "undecided"
     mem = 12 if tier == "quick" else 24
     batches = plan_batches(hs, jobs, default_to)
     results = []
